@@ -384,6 +384,10 @@ func runC06(c *ctx) {
 }
 
 var c06corpus = []string{
+	// two (and a dozen) hosts claim the same server-alias: who answers the alias domain must not depend on the
+	// iteration order of the hosts map (seed C06e)
+	"world svc+d/app!http:80:8080!- ep~d/app!10.0.1.1:r:app-1 svc+d/api!http:80:8080!- ep~d/api!10.0.2.1:r:api-1 ing+d/i1@1!haproxy,-!server-alias=www.local!a.local>/:Prefix:app:80!-!- ing+d/i2@2!haproxy,-!server-alias=www.local!b.local>/:Prefix:api:80!-!-",
+	"world svc+d/app!http:80:8080!- ep~d/app!10.0.1.1:r:app-1 svc+d/api!http:80:8080!- ep~d/api!10.0.2.1:r:api-1 ing+d/i1@1!haproxy,-!server-alias=www.local!a.local>/:Prefix:app:80!-!- ing+d/i2@2!haproxy,-!server-alias=www.local!b.local>/:Prefix:api:80!-!- ing+d/i3@3!haproxy,-!server-alias=www.local!c.local>/:Prefix:app:80!-!- ing+d/i4@4!haproxy,-!server-alias=www.local!d.local>/:Prefix:api:80!-!- ing+d/i5@5!haproxy,-!server-alias=www.local!e.local>/:Prefix:app:80!-!- ing+d/i6@6!haproxy,-!server-alias=www.local!f.local>/:Prefix:api:80!-!-",
 	// --default-backend-service names a service that an ingress also uses with a create-time backend setting
 	// (service-upstream / initial-weight / backend-server-naming): whoever creates the backend object first decides;
 	// a partial sync must process the declarations in the order of a full sync (seed C06d)
